@@ -19,6 +19,7 @@
 #include <string>
 #include <vector>
 #include <set>
+#include <memory>
 #include "vh.h"
 #include "refwild.h"
 using namespace muscle;
@@ -218,32 +219,122 @@ static void SelfCheckParser(const rw::Pattern & p, const std::string & text, rw:
    (void)p;
 }
 
+// ------------------------------------------------------------------------------------------------ object reuse
+// A matcher object that held other patterns before must, after the final SetPattern(), decide and answer its accessors exactly like a
+// fresh one.  What the object held before is tracked by the harness (Prior), not asked of the library.
+struct Prior {
+   int n; bool negate, range, failed, regex, reset, pooled, altsep; std::string log;
+   Prior() : n(0), negate(false), range(false), failed(false), regex(false), reset(false), pooled(false), altsep(false) {}
+   void Forget(const char * how) { negate = range = failed = regex = altsep = false; reset = true; log += how; log += "; "; }
+};
+static bool TextIsRangeList(const std::string & t, bool simple) { if (!simple) return false; rw::Pattern p; return rw::Parse(t, p) && p.numeric && !p.ranges.empty(); }
+static void CountReuse(const Prior & pr, bool judgedNegated, bool judgedRange)
+{
+   if (pr.n == 0) { vh::stat("fresh_objects"); return; }
+   vh::stat("reused_objects"); vh::statmax("max_prior_patterns", pr.n);
+   if (pr.negate && !judgedNegated) vh::stat("reuse_negated_then_plain");
+   if (!pr.negate && judgedNegated) vh::stat("reuse_plain_then_negated");
+   if (pr.range && !judgedRange) vh::stat("reuse_range_then_nonrange");
+   if (!pr.range && judgedRange) vh::stat("reuse_nonrange_then_range");
+   if (pr.failed) vh::stat("reuse_after_failed_compile");
+   if (pr.regex) vh::stat("reuse_regex_then_simple");
+   if (pr.reset) vh::stat("reuse_after_reset_or_clear");
+   if (pr.pooled) vh::stat("reuse_of_pool_recycled_object");
+   if (pr.altsep) vh::stat("reuse_after_other_separators");
+}
+// one earlier pattern on a StringMatcher that is going to be reused
+static void PriorStepSM(vh::Rng & g, StringMatcher & m, Prior & pr)
+{
+   static const char * weird[] = {"a(b", "[abc", "(", "*\\", "", "~", "`^a[0-9]+$", "`(", "~`x*", "<->", "~<1-3,9->", "<0-4294967295>", "a{2}", "x,y,,", "~*", "[z-a]"};
+   static const char * regexes[] = {"a.*b", "^x[0-9]+$", "(a|b)+c", "a(b", "[", "x{2,3}", "", "~a", "<1-3>"};
+   std::string t; bool simple = true, setNeg = false;
+   switch (g.R(10)) {
+   case 0: case 1: case 2: { GenOpts o; o.over = (g.R(2) == 0); t = rw::Print(GenPattern(g, o)); } break;
+   case 3: { GenOpts o; rw::Pattern p = GenPattern(g, o); p.negate = true; t = rw::Print(p); } break;
+   case 4: case 5: t = rw::Print(GenNumeric(g)); break;
+   case 6: t = weird[g.R(16)]; break;
+   case 7: t = regexes[g.R(9)]; simple = false; break;
+   case 8: t = RandomString(g, CORE, 4); setNeg = true; break;
+   default: t = RandomString(g, CORE, 5); break;
+   }
+   status_t r = m.SetPattern(t.c_str(), simple);
+   if (setNeg) m.SetNegate(true);
+   (void)m.Match("ab1"); (void)m.Match("2");
+   pr.n++; pr.failed = r.IsError(); pr.regex = !simple; pr.range = r.IsOK() && TextIsRangeList(t, simple); pr.negate = setNeg || (simple && !t.empty() && t[0] == '~'); pr.reset = false;
+   pr.log += Show(t) + (simple ? "" : "(isSimple=false)") + (setNeg ? "+SetNegate(true)" : "") + (r.IsError() ? "(rejected)" : "") + "; ";
+   if (g.R(8) == 0) { m.Reset(); pr.Forget("Reset()"); }
+}
+// gives a few pool objects a past and releases them, so that the next objects the pool hands out are recycled ones (the pool's free list is LIFO)
+static Prior PrimeStringMatcherPool(vh::Rng & g, const void ** optAddr = NULL)
+{
+   Prior last; const uint32_t n = 1 + g.R(3);
+   for (uint32_t i = 0; i < n; i++) { StringMatcherRef a = GetStringMatcherFromPool(); if (a() == NULL) HarnessAbort("GetStringMatcherFromPool() returned NULL"); Prior pr; PriorStepSM(g, *a(), pr); if (g.R(3) == 0) PriorStepSM(g, *a(), pr); last = pr; if (optAddr) *optAddr = a(); }
+   last.pooled = true; last.log += "released to the pool and handed out again; ";
+   return last;
+}
+static std::string DiffersFromFresh(const StringMatcher & m, const std::string & text, bool simple)
+{
+   StringMatcher f; (void)f.SetPattern(text.c_str(), simple);
+   if (m.IsNegate() != f.IsNegate()) return "IsNegate";
+   if (m.IsPatternUnique() != f.IsPatternUnique()) return "IsPatternUnique";
+   if (m.IsPatternListOfUniqueValues() != f.IsPatternListOfUniqueValues()) return "IsPatternListOfUniqueValues";
+   if (m.IsSimple() != f.IsSimple()) return "IsSimple";
+   if (m.GetPattern() != f.GetPattern()) return "GetPattern";
+   if (m.ToString() != f.ToString()) return "ToString";
+   if (!(m == f) || (m != f)) return "operator==";
+   if (m.HashCode() != f.HashCode()) return "HashCode";
+   return "";
+}
+
 // ------------------------------------------------------------------------------------------------ exact part
 static bool CaseExact(long k, uint64_t cs)
 {
    vh::Rng g(cs);
-   StringMatcher * sm = new StringMatcher;
+   StringMatcherRef keeper = GetStringMatcherFromPool();   // keeps the pool's slab alive, so that released objects are the ones handed out next
+   StringMatcher * own = new StringMatcher; StringMatcherRef pooled; StringMatcher * sm = own; Prior pr;
    const uint32_t npat = 4 + g.R(5);
    bool bad = false, sawPos = false, sawNeg = false, sawWild = false; uint64_t dig = 1469598103934665603ULL;
    for (uint32_t pi = 0; pi < npat && !bad; pi++) {
-      if (pi > 0) { if (g.R(4) == 0) { delete sm; sm = new StringMatcher; vh::stat("setpattern_on_fresh_matcher"); } else vh::stat("setpattern_on_reused_matcher"); }
+      // ---- where the object comes from and what it held before
+      const uint32_t origin = (pi == 0) ? 2 + g.R(8) : g.R(10);
+      if (origin < 2 || (origin < 5 && pi == 0)) { delete own; own = new StringMatcher; pooled.Reset(); sm = own; pr = Prior(); }
+      else if (origin < 5) { /* the object of the previous judged pattern, as it is */ }
+      else if (origin < 8) { delete own; own = new StringMatcher; pooled.Reset(); sm = own; pr = Prior(); const uint32_t n = 1 + g.R(3); for (uint32_t i = 0; i < n; i++) PriorStepSM(g, *sm, pr); }
+      else {
+         pooled.Reset(); const void * addr = NULL; pr = PrimeStringMatcherPool(g, &addr);
+         pooled = GetStringMatcherFromPool(); if (pooled() == NULL) HarnessAbort("GetStringMatcherFromPool() returned NULL");
+         sm = pooled(); vh::stat("pooled_objects"); if ((const void *)sm == addr) vh::stat("pooled_object_is_the_one_just_released");
+         const uint32_t n = g.R(3); for (uint32_t i = 0; i < n; i++) PriorStepSM(g, *sm, pr);
+      }
       GenOpts o; o.over = (g.R(2) == 0);
       const rw::Pattern p = GenPattern(g, o);
       const std::string text = rw::Print(p);
       dig = vh::fnvs(text, dig) * 31;
-      const bool wasNeg = sm->IsNegate();
-      status_t r = sm->SetPattern(text.c_str(), true);
-      if (text.empty() || text == "~") { vh::stat("unspecified_empty_pattern"); continue; }   // documented "matches nothing", exempt (see DESIGN.md C15)
-      if (wasNeg && !p.negate) vh::stat("plain_pattern_set_after_negated_pattern");
+      if (text.empty() || text == "~") {   // documented "matches nothing", exempt (see DESIGN.md C15); still part of the object's history
+         status_t er = sm->SetPattern(text.c_str(), true); vh::stat("unspecified_empty_pattern");
+         pr.n++; pr.negate = (text == "~"); pr.range = pr.regex = pr.reset = false; pr.failed = er.IsError(); pr.log += Show(text) + "; "; continue;
+      }
+      // ---- how the judged pattern gets onto the object
+      status_t r; const uint32_t how = g.R(12); const char * howName = "SetPattern";
+      if (how == 0) { StringMatcher src(text.c_str()); *sm = src; howName = "operator=(const &)"; vh::stat("installed_by_copy_assignment"); }
+      else if (how == 1) { *sm = StringMatcher(text.c_str()); howName = "operator=(&&)"; vh::stat("installed_by_move_assignment"); }
+      else if (how == 2) {
+         pooled.Reset(); if (sm != own) sm = own; pr = PrimeStringMatcherPool(g);
+         pooled = GetStringMatcherFromPool(text.c_str(), true); howName = "GetStringMatcherFromPool(pattern)"; vh::stat("installed_by_pool_convenience"); vh::stat("pooled_objects");
+         if (pooled() == NULL) r = B_BAD_ARGUMENT; else sm = pooled();
+      }
+      else r = sm->SetPattern(text.c_str(), true);
+      CountReuse(pr, p.negate, p.numeric);
       rw::Pattern parsed; SelfCheckParser(p, text, parsed);
       vh::stat("patterns"); vh::stat("patterns_" + Feature(p, o.over));
       if (!p.numeric) { for (size_t i = 0; i < p.alts.size(); i++) { CountConstructs(p.alts[i]); if (p.alts[i].empty()) vh::stat("empty_top_level_alternative"); vh::statmax("max_nesting", rw::Depth(p.alts[i])); } }
       if (HasWildcards(p)) sawWild = true;
-      const std::string ctx = "pattern " + Show(text) + " (" + Feature(p, o.over) + vh::fmt(", pattern %u of the case's matcher object)", pi);
-      if (r.IsError()) { vh::viol(KeyFor(text, "exact", "exact|setpattern-rejects-documented-pattern|" + Feature(p, o.over)), ctx + ": SetPattern returned " + r()); bad = true; break; }
+      const std::string ctx = "pattern " + Show(text) + " (" + Feature(p, o.over) + ") installed by " + howName + (pr.n ? " on an object that held before: " + pr.log : std::string(" on a fresh object;"));
+      if (r.IsError()) { vh::viol(KeyFor(text, "exact", "exact|setpattern-rejects-documented-pattern|" + Feature(p, o.over)), ctx + " SetPattern returned " + r()); bad = true; break; }
       if (sm->GetPattern() != text.c_str()) { vh::viol("exact|GetPattern", ctx); bad = true; break; }
+      { const std::string d = DiffersFromFresh(*sm, text, true); if (!d.empty()) { vh::viol("exact|reused-object-differs-from-fresh|" + d, ctx + " " + d + "() differs from a fresh StringMatcher with the same pattern"); bad = true; break; } }
       const bool can = CanWildcardStringMatchMultipleValues(text.c_str()), uniq = sm->IsPatternUnique();
-      if (can == uniq) { vh::viol("exact|uniqueness-predicates-disagree", ctx + vh::fmt(": CanWildcardStringMatchMultipleValues=%d IsPatternUnique=%d", (int)can, (int)uniq)); bad = true; break; }
+      if (can == uniq) { vh::viol("exact|uniqueness-predicates-disagree", ctx + vh::fmt(" CanWildcardStringMatchMultipleValues=%d IsPatternUnique=%d", (int)can, (int)uniq)); bad = true; break; }
       if (uniq) vh::stat("patterns_reported_unique"); else if (rw::IsPureLiteral(p)) vh::stat("literal_patterns_reported_not_unique");
       // sometimes match through a copy / a swapped-in object
       StringMatcher * use = sm; StringMatcher * tmp = NULL; const uint32_t via = g.R(10);
@@ -268,8 +359,10 @@ static bool CaseExact(long k, uint64_t cs)
       if (!bad && uniq && matched.size() > 1) { vh::viol("exact|reported-unique-but-two-strings-match", ctx + " matches " + Show(*matched.begin()) + " and " + Show(*matched.rbegin())); bad = true; }
       if (vh::want_sample() && pi == 1) vh::sample(vh::fmt("case %ld: ", k) + ctx);
       if (tmp) { if (via == 1) tmp->SwapContents(*sm); delete tmp; }
+      // the judged pattern is part of the object's history now
+      pr.n++; pr.negate = p.negate; pr.range = p.numeric; pr.failed = pr.regex = pr.reset = false; pr.log += Show(text) + "; "; if (pr.log.size() > 600) pr.log = "... " + pr.log.substr(pr.log.size() - 500);
    }
-   delete sm;
+   pooled.Reset(); delete own;
    vh::distinct(dig ^ cs, sawPos && sawNeg && sawWild);
    return !bad;
 }
@@ -344,21 +437,30 @@ static std::string GenArbitraryPattern(vh::Rng & g)
 static bool CaseUnique(long k, uint64_t cs)
 {
    vh::Rng g(cs);
-   StringMatcher sm; bool bad = false; uint64_t dig = cs; bool sawUnique = false, sawRejected = false;
+   StringMatcher sm; bool bad = false; uint64_t dig = cs; bool sawUnique = false, sawRejected = false; Prior pr;
    for (int pi = 0; pi < 6 && !bad; pi++) {
       const std::string p = GenArbitraryPattern(g);
       dig = vh::fnvs(p, dig);
       vh::note("unique: SetPattern " + Show(p));
-      if (g.R(8) == 0 && p.find('{') == std::string::npos) {   // the raw-regex form on the same object first: no verdict but "does not crash", and the next SetPattern must forget it
+      if (g.R(5) == 0 && p.find('{') == std::string::npos) {   // the raw-regex form on the same object first: no verdict but "does not crash", and the next SetPattern must forget it
          status_t rr = sm.SetPattern(p.c_str(), false); vh::stat("raw_regex_setpattern"); if (rr.IsError()) vh::stat("raw_regex_rejected");
          (void)sm.Match("ab"); (void)sm.Match(p.c_str()); (void)sm.IsPatternUnique(); (void)sm.ToString();
+         pr.n++; pr.regex = true; pr.failed = rr.IsError(); pr.negate = pr.range = pr.reset = false; pr.log += Show(p) + "(isSimple=false)" + (rr.IsError() ? "(rejected)" : "") + "; ";
       }
+      if (g.R(6) == 0) PriorStepSM(g, sm, pr);
+      if (g.R(12) == 0) { sm.SetNegate(true); pr.negate = true; pr.log += "SetNegate(true); "; }
       status_t r = sm.SetPattern(p.c_str(), true);
       vh::stat("patterns"); if (r.IsError()) { vh::stat("patterns_rejected"); sawRejected = true; }
-      const std::string ctx = "pattern " + Show(p);
+      const std::string ctx = "pattern " + Show(p) + (pr.n ? " on an object that held before: " + pr.log : std::string());
+      CountReuse(pr, !p.empty() && p[0] == '~', r.IsOK() && TextIsRangeList(p, true));
+      // arbitrary (also ill-formed) patterns have no reference, but a used object must still behave like a fresh one
+      StringMatcher fresh; status_t fr = fresh.SetPattern(p.c_str(), true);
+      if (fr.IsError() != r.IsError()) { vh::viol("unique|reused-object-differs-from-fresh|SetPattern-status", ctx + ": " + r() + ", fresh object: " + fr()); bad = true; break; }
+      { const std::string d = DiffersFromFresh(sm, p, true); if (!d.empty()) { vh::viol("unique|reused-object-differs-from-fresh|" + d, ctx + " " + d + "() differs from a fresh StringMatcher with the same pattern"); bad = true; break; } }
       const bool can = CanWildcardStringMatchMultipleValues(p.c_str()), uniq = sm.IsPatternUnique();
       if (can == uniq) { vh::viol("unique|uniqueness-predicates-disagree", ctx + vh::fmt(": CanWildcardStringMatchMultipleValues=%d IsPatternUnique=%d", (int)can, (int)uniq)); bad = true; break; }
       (void)sm.ToString(); (void)sm.IsPatternListOfUniqueValues();
+      pr.n++; pr.negate = (!p.empty() && p[0] == '~'); pr.range = r.IsOK() && TextIsRangeList(p, true); pr.failed = r.IsError(); pr.regex = pr.reset = false; pr.log += Show(p) + (r.IsError() ? "(rejected)" : "") + "; "; if (pr.log.size() > 600) pr.log = "... " + pr.log.substr(pr.log.size() - 500);
       if (p.empty()) { vh::stat("unspecified_empty_pattern"); continue; }
       const std::string u = Unescape(p);
       std::set<std::string> cand; cand.insert(u); cand.insert(RemoveEscapeChars(p.c_str())()); cand.insert(p); cand.insert(""); cand.insert(u + u); cand.insert(u + "a"); cand.insert("a" + u);
@@ -371,6 +473,7 @@ static bool CaseUnique(long k, uint64_t cs)
          t = u; t.insert(i, 1, u[i]); cand.insert(t);
          t = u; t.insert(i, 1, Pick(g, ALPHA)); cand.insert(t);
       }
+      { bool differs = false; for (std::set<std::string>::const_iterator it = cand.begin(); it != cand.end() && !differs; ++it) { vh::stat("reused_vs_fresh_matches"); if (sm.Match(it->c_str()) != fresh.Match(it->c_str())) { vh::viol("unique|reused-object-differs-from-fresh|Match", ctx + " subject " + Show(*it) + vh::fmt(": Match()=%d, fresh object %d", (int)sm.Match(it->c_str()), (int)fresh.Match(it->c_str()))); differs = true; } } if (differs) { bad = true; break; } }
       if (!uniq) {
          vh::stat("patterns_not_unique");
          int n = 0; for (std::set<std::string>::const_iterator it = cand.begin(); it != cand.end() && n < 6; ++it, ++n) { (void)sm.Match(it->c_str()); vh::stat("nocrash_matches"); }
@@ -419,11 +522,58 @@ static int WantPath(const std::vector<Clause> & pat, const std::vector<std::stri
    return unspec ? 2 : 1;
 }
 static std::string Join(const std::vector<std::string> & v) { std::string o; for (size_t i = 0; i < v.size(); i++) { if (i) o.push_back('/'); o += v[i]; } return o; }
+static std::string GenPathPatternText(vh::Rng & g, bool allowClauseTilde, char sep = '/')
+{
+   std::string t; const uint32_t nc = 1 + g.R(3);
+   for (uint32_t j = 0; j < nc; j++) { if (j) t.push_back(sep); t += GenClause(g, allowClauseTilde).text; }
+   return t;
+}
+// one earlier pattern on a SegmentedStringMatcher that is going to be reused
+static void PriorStepSeg(vh::Rng & g, SegmentedStringMatcher & m, Prior & pr)
+{
+   std::string t; bool simple = true, setNeg = false; const char * sep = "/"; uint32 maxSeg = MUSCLE_NO_LIMIT;
+   switch (g.R(9)) {
+   case 0: case 1: t = GenPathPatternText(g, false); break;
+   case 2: case 3: t = "~" + GenPathPatternText(g, false); break;
+   case 4: { static const char * seps[] = {":", "/:", ".", ";;"}; sep = seps[g.R(4)]; t = std::string(g.R(2) ? "~" : "") + GenPathPatternText(g, false, sep[0]); } break;
+   case 5: { static const char * rx[] = {"a.*/b[0-9]+", "x/(y|z)", "a(b/c", "~q/r"}; t = rx[g.R(4)]; simple = false; } break;
+   case 6: { static const char * badp[] = {"a(b/c", "x/[abc", "~(/y", "ok/a)b(/z"}; t = badp[g.R(4)]; } break;
+   case 7: t = GenPathPatternText(g, false); setNeg = true; break;
+   default: t = std::string(g.R(2) ? "~" : "") + "a/b/c/d"; maxSeg = 1 + g.R(2); break;
+   }
+   status_t r = m.SetPattern(t.c_str(), simple, sep, maxSeg);
+   if (setNeg) m.SetNegate(true);
+   (void)m.Match("a/b", g.R(2) != 0); (void)m.IsPatternUnique();
+   pr.n++; pr.failed = r.IsError(); pr.regex = !simple; pr.range = false; pr.altsep = (strcmp(sep, "/") != 0); pr.reset = false;
+   pr.negate = setNeg || (r.IsOK() && simple && !t.empty() && t[0] == '~');
+   pr.log += Show(t) + (simple ? "" : "(isSimple=false)") + (pr.altsep ? std::string("(separators ") + sep + ")" : std::string()) + (maxSeg != MUSCLE_NO_LIMIT ? "(maxSegments)" : "") + (setNeg ? "+SetNegate(true)" : "") + (r.IsError() ? "(rejected)" : "") + "; ";
+   if (g.R(8) == 0) { m.Clear(); pr.Forget("Clear()"); }
+}
+static std::string SegDiffersFromFresh(const SegmentedStringMatcher & m, const std::string & text)
+{
+   SegmentedStringMatcher f; (void)f.SetPattern(text.c_str(), true);
+   if (m.IsNegate() != f.IsNegate()) return "IsNegate";
+   if (m.IsPatternUnique() != f.IsPatternUnique()) return "IsPatternUnique";
+   if (m.GetPattern() != f.GetPattern()) return "GetPattern";
+   if (m.GetSeparatorChars() != f.GetSeparatorChars()) return "GetSeparatorChars";
+   if (m.ToString() != f.ToString()) return "ToString";
+   return "";
+}
 static bool CasePath(long k, uint64_t cs)
 {
    vh::Rng g(cs);
    bool bad = false; uint64_t dig = cs; bool sawPos = false, sawNeg = false;
+   StringMatcherRef keeper = GetStringMatcherFromPool();   // keeps the pool's slab alive: the StringMatchers a PathMatcher releases are the ones it is handed next
    PathMatcher pm; std::vector<std::vector<Clause> > pats; std::vector<std::string> texts;
+   if (g.R(2) == 0) {   // an earlier life of the same PathMatcher (and of the pooled StringMatchers behind its entries): other patterns, put, used, removed
+      std::vector<std::string> old; const uint32_t n = 1 + g.R(3);
+      for (uint32_t i = 0; i < n; i++) { const std::string t = GenPathPatternText(g, true); if (pm.PutPathString(t.c_str(), ConstQueryFilterRef()).IsOK()) old.push_back(t); }
+      (void)pm.MatchesPath("a/b", NULL, NULL); (void)pm.MatchesPath("/5", NULL, NULL);
+      if (g.R(2)) { pm.Clear(); vh::stat("pathmatcher_cleared_after_other_patterns"); }
+      else { std::set<std::string> uniqOld(old.begin(), old.end()); for (std::set<std::string>::const_iterator it = uniqOld.begin(); it != uniqOld.end(); ++it) if (pm.RemovePathString(it->c_str()).IsError()) { vh::viol("path|RemovePathString", "RemovePathString(" + Show(*it) + ") failed for a pattern that was put"); return false; } vh::stat("pathmatcher_entries_removed", (long)uniqOld.size()); }
+      vh::stat("pathmatcher_reused");
+   }
+   else if (g.R(2) == 0) { (void)PrimeStringMatcherPool(g); vh::stat("pathmatcher_on_primed_pool"); }
    const uint32_t np = 1 + g.R(3);
    for (uint32_t i = 0; i < np; i++) {
       std::vector<Clause> pc; std::vector<std::string> ct; const uint32_t nc = 1 + g.R(3);
@@ -433,11 +583,35 @@ static bool CasePath(long k, uint64_t cs)
       if (r.IsError()) { vh::viol(KeyFor(text, "path", "path|PutPathString-rejects-documented-pattern"), "path pattern " + Show(text) + ": " + r()); return false; }
       pats.push_back(pc); texts.push_back(text); vh::stat("path_patterns");
    }
+   // entries that come and go, or are put twice, must not change what the judged set decides
+   if (g.R(3) == 0) { const std::string t = GenPathPatternText(g, true); bool judged = false; for (size_t i = 0; i < texts.size(); i++) if (texts[i] == t) judged = true;
+      if (!judged && pm.PutPathString(t.c_str(), ConstQueryFilterRef()).IsOK()) { (void)pm.MatchesPath("a", NULL, NULL); if (pm.RemovePathString(t.c_str()).IsError()) { vh::viol("path|RemovePathString", "RemovePathString(" + Show(t) + ") failed for a pattern that was put"); return false; } vh::stat("pathmatcher_entries_removed"); } }
+   if (g.R(4) == 0) { const std::string & t = texts[g.R((uint32_t)texts.size())]; if (pm.PutPathString(t.c_str(), ConstQueryFilterRef()).IsError()) { vh::viol("path|PutPathString-rejects-documented-pattern", "second PutPathString of " + Show(t)); return false; } vh::stat("pathmatcher_entries_put_twice"); }
    // one SegmentedStringMatcher: whole-pattern negation only (a leading ~ belongs to the whole pattern there)
    std::vector<Clause> sp; std::vector<std::string> st; { const uint32_t nc = 1 + g.R(3); for (uint32_t j = 0; j < nc; j++) { sp.push_back(GenClause(g, false)); st.push_back(sp.back().text); } }
    const bool sneg = (g.R(6) == 0); const std::string stext = std::string(sneg ? "~" : "") + Join(st);
-   SegmentedStringMatcher ssm; status_t sr = ssm.SetPattern(stext.c_str(), true);
-   if (sr.IsError()) { vh::viol(KeyFor(stext, "path", "path|SegmentedStringMatcher-rejects-documented-pattern"), "pattern " + Show(stext) + ": " + sr()); return false; }
+   // ---- the object: fresh, or with a past (other patterns, other separators, regex form, rejected patterns, SetNegate, Clear), or from the pool
+   SegmentedStringMatcherRef segKeeper = GetSegmentedStringMatcherFromPool();
+   SegmentedStringMatcher ownSeg; SegmentedStringMatcherRef pooledSeg; SegmentedStringMatcher * seg = &ownSeg; Prior pr;
+   const uint32_t origin = g.R(8);
+   if (origin < 2) { /* fresh */ }
+   else if (origin < 6) { const uint32_t n = 1 + g.R(3); for (uint32_t i = 0; i < n; i++) PriorStepSeg(g, *seg, pr); }
+   else {
+      { const uint32_t n = 1 + g.R(2); for (uint32_t i = 0; i < n; i++) { SegmentedStringMatcherRef a = GetSegmentedStringMatcherFromPool(); if (a() == NULL) HarnessAbort("GetSegmentedStringMatcherFromPool() returned NULL"); Prior tmp; PriorStepSeg(g, *a(), tmp); pr = tmp; } }
+      pr.pooled = true; pr.log += "released to the pool and handed out again; ";
+      if (origin == 6) { pooledSeg = GetSegmentedStringMatcherFromPool(); if (pooledSeg() == NULL) HarnessAbort("GetSegmentedStringMatcherFromPool() returned NULL"); seg = pooledSeg(); const uint32_t n = g.R(3); for (uint32_t i = 0; i < n; i++) PriorStepSeg(g, *seg, pr); }
+      vh::stat("pooled_objects");
+   }
+   status_t sr; const char * howName = "SetPattern";
+   if (origin == 7) { pooledSeg = GetSegmentedStringMatcherFromPool(stext.c_str(), true); howName = "GetSegmentedStringMatcherFromPool(pattern)"; vh::stat("installed_by_pool_convenience"); if (pooledSeg() == NULL) sr = B_BAD_ARGUMENT; else seg = pooledSeg(); }
+   else if (g.R(6) == 0) { SegmentedStringMatcher src(stext.c_str()); *seg = src; howName = "operator="; vh::stat("installed_by_copy_assignment"); }
+   else sr = seg->SetPattern(stext.c_str(), true);
+   CountReuse(pr, sneg, false);
+   const std::string sctx = "pattern " + Show(stext) + " installed by " + howName + (pr.n ? " on an object that held before: " + pr.log : std::string(" on a fresh object;"));
+   if (sr.IsError()) { vh::viol(KeyFor(stext, "path", "path|SegmentedStringMatcher-rejects-documented-pattern"), sctx + " " + sr()); return false; }
+   { const std::string d = SegDiffersFromFresh(*seg, stext); if (!d.empty()) { vh::viol("path|reused-SegmentedStringMatcher-differs-from-fresh|" + d, sctx + " " + d + "() differs from a fresh SegmentedStringMatcher with the same pattern"); return false; } }
+   std::unique_ptr<SegmentedStringMatcher> segCopy; if (g.R(6) == 0) { segCopy.reset(new SegmentedStringMatcher(*seg)); seg = segCopy.get(); vh::stat("matched_through_copy"); }
+   SegmentedStringMatcher & ssm = *seg;
    std::string all; for (size_t i = 0; i < texts.size(); i++) { all += Show(texts[i]); all += " "; }
    for (int j = 0; j < 8 && !bad; j++) {
       const bool fromSeg = (j >= 5);
@@ -462,7 +636,7 @@ static bool CasePath(long k, uint64_t cs)
          if (sneg) w = !w;
          const bool sg = ssm.Match(path.c_str(), prefixOK != 0);
          vh::stat(w ? "segmented_expected_match" : "segmented_expected_nomatch");
-         if ((int)sg != w) { vh::viol(KeyFor(stext, "path", sg ? "path|SegmentedStringMatcher-false-accept" : "path|SegmentedStringMatcher-false-reject"), "pattern " + Show(stext) + " path " + Show(path) + vh::fmt(" prefixMatchOkay=%d: Match()=%d, expected %d", prefixOK, (int)sg, w)); bad = true; }
+         if ((int)sg != w) { vh::viol(KeyFor(stext, "path", sg ? "path|SegmentedStringMatcher-false-accept" : "path|SegmentedStringMatcher-false-reject"), sctx + " path " + Show(path) + vh::fmt(" prefixMatchOkay=%d: Match()=%d, expected %d", prefixOK, (int)sg, w)); bad = true; }
       }
    }
    if (vh::want_sample()) vh::sample(vh::fmt("case %ld: paths ", k) + all + "segmented " + Show(stext));
